@@ -488,9 +488,42 @@ def _eq_term(it, u, a, b):
     u.term = T.app("cmp_Eq", T.sym("value#%d" % ia), T.sym("value#%d" % ib))
 
 
+def _val_eq(x, y):
+    """Equality of two followed values: True / False / None.  Equal terms are equal values; different integer constants differ."""
+    if isinstance(x, VTuple) and isinstance(y, VTuple):
+        if len(x.items) != len(y.items):
+            return False
+        res = True
+        for p_, q_ in zip(x.items, y.items):
+            r_ = _val_eq(p_, q_)
+            if r_ is False:
+                return False
+            if r_ is None:
+                res = None
+        return res
+    if isinstance(x, VConst) and isinstance(y, VConst):
+        try:
+            return x.value == y.value
+        except Exception:
+            return None
+    if isinstance(x, VUnknown) and isinstance(y, VUnknown) and x.kind == y.kind and x.kind in ("dtype", "device", "layout"):
+        return True if x.tag == y.tag else None
+    tx, ty = (num_term(x) if is_number(x) else None), (num_term(y) if is_number(y) else None)
+    if tx is not None and ty is not None:
+        if tx == ty:
+            return True
+        if tx.is_const() and ty.is_const():
+            return False
+        return None
+    return None
+
+
 def tuple_eq(a, b):
     if len(a.items) != len(b.items):
         return False
+    if any(isinstance(x, (VTuple, VUnknown)) for x in list(a.items) + list(b.items)):
+        # not a plain shape: element-wise equality of followed values
+        return _val_eq(a, b)
     res = True
     for x, y in zip(a.items, b.items):
         dx, dy = dim_of(x), dim_of(y)
